@@ -26,6 +26,8 @@ func (r *redactComp) Impl(c Case) []string {
 	reg, lookup := btest.NewStubLogCustomCounterRegistry()
 	tf := cfg.NewTransform(schema, logger.WithField("verif", "redact"), reg)
 	out := make([]string, len(c.Ops))
+	recs := make([]*base.LogRecord, len(c.Ops))
+	first := make([]string, len(c.Ops))
 	for i, o := range c.Ops {
 		out[i] = func() (res string) {
 			defer func() {
@@ -37,8 +39,17 @@ func (r *redactComp) Impl(c Case) []string {
 			rec := schema.NewTestRecord1(base.LogFields{string(o.Bytes[0])})
 			tf.Transform(rec)
 			after, _ := lookup("redacted")
-			return fmt.Sprintf("%s %d", hx([]byte(rec.Fields[0])), after-before)
+			recs[i] = rec
+			first[i] = string(append([]byte{}, rec.Fields[0]...))
+			return fmt.Sprintf("%s %d", hx([]byte(first[i])), after-before)
 		}()
+	}
+	// the records of a batch are still alive when later records go through the same transform instance (input-stage
+	// extractions batch records before the pipeline consumes them): their values must not change afterwards
+	for i, rec := range recs {
+		if rec != nil && rec.Fields[0] != first[i] {
+			out[i] += " LATER=" + hx([]byte(rec.Fields[0]))
+		}
 	}
 	return out
 }
@@ -142,6 +153,9 @@ func (r *redactComp) Oracle(c Case, impl []string) string {
 			return fmt.Sprintf("redacting %q panics: %s", trunc(s), got)
 		}
 		f := strings.Fields(got)
+		if len(f) > 2 && strings.HasPrefix(f[2], "LATER=") {
+			return fmt.Sprintf("the redacted value of %q changed from %q to %q when later records went through the same transform", trunc(s), trunc(unhx(f[0])), trunc(unhx(strings.TrimPrefix(f[2], "LATER="))))
+		}
 		gotOut := unhx(f[0])
 		want, n, classes := refRedact(s, purelyNumeric)
 		counted := "0"
@@ -238,6 +252,20 @@ func (r *redactComp) Generate(rng *rand.Rand, n int, emit func(Case)) {
 		}
 	}
 	rec(nil)
+	// batches: several values through one transform instance, all records kept alive until the end
+	for i := 0; i < n/50+10; i++ {
+		var ops []Op
+		for j := 2 + rng.Intn(5); j > 0; j-- {
+			ops = append(ops, Op{Name: "redact", Bytes: [][]byte{genRedactText(rng)}})
+		}
+		emit(Case{Ops: ops, Tag: "batch"})
+	}
+	// multi-byte characters touching an address on either side
+	for _, mb := range []string{"é", "ú", "µ", "。", "語", "😀", "\xaa", "\xb5", "\xba", "\xc3"} {
+		for _, t := range []string{"%sbob@example.com", "bob@example.com%s", "Per%s@example.com", "bob@exam%sple.com", "x %sbob@example.com%s y", "bob@example.%s"} {
+			one([]byte(strings.ReplaceAll(t, "%s", mb)), "multibyte-adjacent")
+		}
+	}
 	for i := 0; i < n; i++ {
 		b := genRedactText(rng)
 		if i%5 == 0 && len(b) > 0 { // mutate one byte
